@@ -55,8 +55,8 @@ func checkC12(c *checkCtx) int {
 	soft := "60s"
 	timeout := 6 * time.Minute
 	if c.Tier == "thorough" {
-		hot, coldRace, coldPlain, chunk = 600000, 60000, 40000, 10
-		soft = "15m"
+		hot, coldRace, coldPlain, chunk = 400000, 20000, 16000, 10
+		soft = "10m"
 		timeout = 90 * time.Minute
 	}
 	t1 := time.Now()
